@@ -335,4 +335,9 @@ WITNESSES = [
     {"id": "C17.w10-ignore-any-guard-dropped", "rule": "C17.R3", "file": PK,
      "old": "\t\t\tif (eod_pdu->ver == RTR_PROTOCOL_VERSION_1 &&\n\t\t\t    rtr_socket->iv_mode != RTR_INTERVAL_MODE_IGNORE_ANY) {",
      "new": "\t\t\tif (eod_pdu->ver == RTR_PROTOCOL_VERSION_1) {"},
+    {"id": "C17.w-recv_all-full-timeout-per-attempt", "rule": "C17.R5", "file": "rtrlib/transport/transport.c",
+     "old": "(len - total_recv), end_time - cur_time);", "new": "(len - total_recv), timeout);"},
+    {"id": "C17.w-init-accepts-zero-expire", "rule": "C17.R4", "file": "rtrlib/rtr/rtr.c",
+     "old": "\t    rtr_check_interval_range(expire_interval, RTR_EXPIRATION_MIN, RTR_EXPIRATION_MAX) !=\n\t\t    RTR_INSIDE_INTERVAL_RANGE ||",
+     "new": "\t    (expire_interval != 0 &&\n\t     rtr_check_interval_range(expire_interval, RTR_EXPIRATION_MIN, RTR_EXPIRATION_MAX) !=\n\t\t     RTR_INSIDE_INTERVAL_RANGE) ||"},
 ]
